@@ -24,6 +24,7 @@ type Query struct {
 	Ms          int
 	Model       string
 	SMT         string
+	Candidate   bool // not refuted, and the instantiated quantifier-free variant has a model
 }
 
 type Obligation struct {
